@@ -136,6 +136,18 @@ func classify(text string, what string) string {
 	if first >= 1024 {
 		return "decode:late-nonascii:" + what // charset sniffing only looks at the first 1024 bytes
 	}
+	// a standard batch header whose company name reads IATCOR: Reader.parseBH takes it for an IAT header
+	// (searched as text so that every physical layout of the same records gets the same key)
+	rs := []rune(text)
+	pat := []rune("IATCOR          ")
+	for i := 0; i+53 <= len(rs); i++ {
+		if rs[i] != '5' || string(rs[i+4:i+20]) != string(pat) {
+			continue
+		}
+		if sec := string(rs[i+50 : i+53]); sec != "COR" && sec != "IAT" && rs[i+1] >= '0' && rs[i+1] <= '9' {
+			return "dispatch:company-name-iatcor:" + what
+		}
+	}
 	return what
 }
 
